@@ -14,7 +14,7 @@ TRUST = ("Trusted base: go/packages loader, go/types, golang.org/x/tools/go/ssa 
 # id -> (technique, level text, design ref, extra note)
 CLAIMED = {
     "C01": ("symbolic interpretation of the decoder's SSA along every success path (forced branches, enumerated forks, one symbolic loop element) giving field origins over the BER tree; comparison with an RFC 4511 table; branch-table extraction for the kind maps",
-            "Decides position, accessor, order and completeness of every decoded field, the class/type/tag and child-count assertions, that the decode path gives up only on conditions about the BER shape (never on the bytes of a value), the protocolOp->kind->message->operation bijection and the version gate, for all inputs at once; values are never inspected. ldap.DecompileFilter / ber.ReadPacket are trusted. After a failed read the read loop never reads the connection again (a read that gave up inside ber.ReadPacket has consumed part of a request).",
+            "Decides position, accessor, order and completeness of every decoded field, the class/type/tag and child-count assertions, that the decode path gives up only on conditions about the BER shape (never on the bytes of a value), the protocolOp->kind->message->operation bijection and the version gate, for all inputs at once; values are never inspected. ldap.DecompileFilter / ber.ReadPacket are trusted. After a failed read the read loop never reads the connection again (a read that gave up inside ber.ReadPacket has consumed part of a request). Every decoded control is an object allocated by the call that decodes it (no shared or cached instance).",
             "2/C01", ""),
     "C02": ("panic-site enumeration over the decode call-graph slice + forward must-dataflow of guard facts on SSA (access-path keys, callee success summaries, functional-option contexts)",
             "Sound for the enumerated panic classes in gldap's own decode code for every BER tree ber.ReadPacket can return, modulo the listed library facts; the connection-level recover is not accepted as a guard. Library-internal resource exhaustion is not decided. A packet returned by the ber library together with an error is treated as nil until the error is tested; AppendChild dereferences its argument.",
@@ -23,7 +23,7 @@ CLAIMED = {
             "Decides exactly-once, first-match order, predicate semantics of all six route kinds and the shape of the built-in refusal for all route tables and requests; handlers themselves are out of scope.",
             "2/C03", ""),
     "C07": ("goroutine census with deferred-recover dominance check, accept-loop retry path search, exit/containment scans over the connection call-graph slice, ownership of the per-connection reader/writer pair",
-            "Decides that every goroutine gldap starts for handler or decode code is fenced by recover() exactly under !disablePanicRecovery and that transient accept errors loop, that the accept loop (helpers included) does no per-connection I/O, and that a connection's buffered reader/writer pair is never reset, replaced or shared outside initConn; the content of bystanders' answers is not decided. No path of the accept loop gives a connWg place back twice (a negative WaitGroup counter panics outside every recover).",
+            "Decides that every goroutine gldap starts for handler or decode code is fenced by recover() exactly under !disablePanicRecovery and that transient accept errors loop, that the accept loop (helpers included) does no per-connection I/O, and that a connection's buffered reader/writer pair is never reset, replaced or shared outside initConn; the content of bystanders' answers is not decided. No path of the accept loop gives a connWg place back twice (a negative WaitGroup counter panics outside every recover). A map kept in a field of Server / Mux / conn that is written somewhere is accessed only with a mutex held (concurrent map access is a fatal error).",
             "2/C07", ""),
     "C04": ("symbolic interpretation of every response encoder and constructor (BER tree grammar per path, option resolution, callee inlining) compared with the RFC 4511 grammar; setter / option / NewInteger scans",
             "Decides which value ends up in which slot of which tag for all values, option subsets and setter uses; BER length/identifier octets are the library's. Each setter stores its argument on every path (no argument value makes it a no-op). Every Lock of the connection's writer mutex is released on every path (a writer lock left held makes every later response block).",
@@ -53,10 +53,10 @@ CLAIMED = {
             "Decides that no LDAP read can interleave with the upgrade and that after it all I/O goes through the TLS reader/writer pair built from the handshaken connection, that no deadline armed during the upgrade outlives it, and that every request read is dispatched exactly once; crypto/tls behaviour is trusted. A slot of a channel semaphore taken on the StartTLS path is given back on every exit.",
             "2/C13", ""),
     "C14": ("BER tree grammar of every control encoder (all paths) against RFC 4511 / RFC 2696 / draft-behera-10 / draft-vchu-00; attachment position; truth table of the Behera constructor",
-            "Decides agreement of every control's encoding with the published grammars (what an independent client parses; ber.AppendChild modelled as a copy at call time), the attachment of controls in both directions, the Behera constructor's validation, and per-field encode->decode composition through a wire-tree oracle, including that the decoder rejects no value of the field types (integer range arithmetic on its error branches). Values are never inspected. For a well-formed request that carries controls no successful decoding path ends with anything but the decoded list in Controls.",
+            "Decides agreement of every control's encoding with the published grammars (what an independent client parses; ber.AppendChild modelled as a copy at call time), the attachment of controls in both directions, the Behera constructor's validation, and per-field encode->decode composition through a wire-tree oracle, including that the decoder rejects no value of the field types (integer range arithmetic on its error branches). Values are never inspected. For a well-formed request that carries controls no successful decoding path ends with anything but the decoded list in Controls. decodeControl returns only controls allocated by that call.",
             "2/C14", ""),
     "C15": ("frozen field classification + must-held lock sets (with entry lock sets of private callees) + confinement to the connection goroutine + who-writes scans + closure-capture check",
-            "Race freedom on the state of conn, Server, Mux, ResponseWriter and Directory under the stated goroutine structure (fields not in the table are classified from their accesses: sync type / written only during construction / always under one mutex of the struct, otherwise undecided). No schedule is explored. A mutex-guarded slice field that is written in place never has its backing array handed out of the lock (getter results, arguments a callee keeps).",
+            "Race freedom on the state of conn, Server, Mux, ResponseWriter and Directory under the stated goroutine structure (fields not in the table are classified from their accesses: sync type / written only during construction / always under one mutex of the struct, otherwise undecided). No schedule is explored. A mutex-guarded slice field that is written in place never has its backing array handed out of the lock (getter results, arguments a callee keeps). Encoders (Encode of controls, packet of responses) do not store through their receiver.",
             "2/C15", ""),
     "C16": ("panic-site enumeration (engine E2) from the exported helper/constructor entries with caller-controlled parameters; sibling layout comparison for SID; order-taint and paired-write scans",
             "Decides panic freedom (enumerated classes) for all argument values and option subsets, deterministic attribute order, paired string/byte values and the Behera constructor's validation table; the value-level inverse clauses are not decided. In ConvertString / SIDBytes / SIDBytesToString an error of a module helper reaches the caller on every path from its failure edge.",
